@@ -454,6 +454,8 @@ def second_open_paren_detected_after_first_open_paren_was_closed(bFirstTokenFoun
 
 def open_paren_after_assignment_operator(assignment_operator, lTokens):
     iToken = get_index_of_token_in_list(assignment_operator, lTokens)
+    if iToken is None:
+        return False
     return is_next_token_ignoring_whitespace(parser.open_parenthesis, iToken, lTokens)
 
 
